@@ -296,9 +296,9 @@ def r6_top_m(ctx):
             else:
                 okrank = astx.u(rk) == f"{f.params[2]}.remaining"
                 oktb = astx.u(tb) == "self.tiebreak"
-            okprof = astx.is_name(prof, f.params[1])
+            okprof = astx.is_name(prof, f.params[1]) and astx.u(b.get("m")) == "self.m"
             ctx.check(okrank and oktb and okprof, f, c, f"{f.cls.name}: top-m selection over the recorded order with the rule's tiebreak", astx.u(c)[:110],
-                      f"`{astx.u(c)[:110]}`: ranking ok={okrank}, tiebreak ok={oktb}, profile ok={okprof}")
+                      f"`{astx.u(c)[:110]}`: ranking ok={okrank}, tiebreak ok={oktb}, profile and m=self.m ok={okprof}")
             # roles of the returned tuple
             st = astx.stmt_of(c, astx.parents(f.node))
             if isinstance(st, ast.Assign) and isinstance(st.targets[0], ast.Tuple) and len(st.targets[0].elts) == 3:
